@@ -381,11 +381,12 @@ CHECKS['C11'] = dict(
     technique='bounded-exhaustive enumeration of well-formed files produced by an independent encoder (every block partition x restart set x sharing amount x index separator choice x format version x compression x foreign prefix over small key sets), read back through the real reader: iteration, get / get_prefix / get_range, seek from exhausted and fresh iterators; >4 GiB block images for 64-bit restart arrays',
     text='The writer emits one encoding per content; the format allows many. For every strictly increasing key sequence of length <=4 (thorough 5) from K9 the independent encoder produces every partition into blocks, every legal restart set, sharing amounts {0, lcp-1, lcp} per non-restart entry (also in the index block), four separator choices per block between "last key" and "just below the next first key", v1 and v2, six compression types, foreign prefix 0/13. The reader (verify_checksums off and on) must return exactly the encoded entries for full iteration, for get/get_prefix/get_range over the 31-string universe, and for seek+next from an exhausted iterator. Blocks larger than 4 GiB with 64-bit restart offsets are built in a lazily zeroed mapping and handed to block_init/block_iter directly.',
     jobs=[dict(name='encoded-files', spec=H('h_encode.c', 'asan'), args=['enc']),
-          dict(name='restart64', spec=H('h_encode.c', 'fast'), args=['restart64'], shards=1)],
+          dict(name='restart64', spec=H('h_encode.c', 'fast'), args=['restart64'], shards=1),
+          dict(name='builder64', spec=H('h_encode.c', 'fast'), args=['bb64'], shards=1, tiers=['thorough'])],
     states_key='states', transitions_key='transitions', traces_key='cases',
     rule='one case = one encoded file; transitions = lookups/seeks compared; signature = (version, compression, #blocks, #restarts, prefix)',
     bounds={'quick': 'key subsets of K9 up to size 4; full product partition x restarts x sharing at v2/none; 4^blocks separator choices per partition; version x 6 compressions x prefix x 2 restart layouts per partition; 3 restart layouts of a 4.0 GiB block',
-            'thorough': 'subsets up to size 5'},
+            'thorough': 'subsets up to size 5; block_builder round trip of a 6 GiB block (four 1.5 GiB values, restart interval 1 and 2)'},
     nonzero=['cases', 'transitions', 'restart64_blocks'],
     assumptions=['the encoder is cross-checked by its own decoder on every file', 'values are 1-3 bytes: value handling is covered by C01'],
     budget={'quick': 300, 'thorough': 2400},
